@@ -345,7 +345,7 @@ func runC13(c *report.Ctx) {
 	efm := fn(c, pkgKeystore, "", "EntropyFromMnemonic")
 	split := fn(c, pkgKeystore, "", "splitMnemonicWords")
 	valid := fn(c, pkgKeystore, "", "IsMnemonicValid")
-	cmpBS := fn(c, pkgKeystore, "", "compareByteSlices")
+	cmpBS := fnOpt(c, pkgKeystore, "", "compareByteSlices") // (or bytes.Equal)
 	bigCmp := p.Fn("math/big", "Int", "Cmp")
 	var successAlt func(b *ssa.BasicBlock) bool // another way the gate can hold at a success return
 	successGuard := func(f *ssa.Function, name string, pred func(an.Atom) bool) {
@@ -505,13 +505,67 @@ func runC13(c *report.Ctx) {
 		}
 		return false
 	}
-	if m2b != nil && valid != nil && cmpBS != nil {
+	// word validators: functions of the package that answer true only when every word they looked up was found
+	// (IsMnemonicValid, or a helper it was split into)
+	validators := map[*ssa.Function]bool{}
+	for _, g := range p.ModFuncs {
+		if pk := an.FuncPkg(g); pk == nil || pk.Path() != pkgKeystore || g.Blocks == nil || wordMapG == nil {
+			continue
+		}
+		res := g.Signature.Results()
+		if res.Len() != 1 {
+			continue
+		}
+		if b, isB := res.At(0).Type().Underlying().(*types.Basic); !isB || b.Kind() != types.Bool {
+			continue
+		}
+		sites := lookupsOf(g)
+		all := len(sites) > 0
+		for _, ls := range sites {
+			if !ls.tested {
+				all = false
+			}
+		}
+		if all {
+			validators[g] = true
+		}
+	}
+	isValidated := func(a an.Atom) bool {
+		if a.Op != token.ILLEGAL || !a.Truth || a.X == nil {
+			return false
+		}
+		call, ok := a.X.(*ssa.Call)
+		return ok && call.Call.StaticCallee() != nil && validators[call.Call.StaticCallee()]
+	}
+	isSplitOK := func(a an.Atom) bool {
+		if a.Op != token.ILLEGAL || !a.Truth {
+			return false
+		}
+		ex, ok := a.X.(*ssa.Extract)
+		if !ok || ex.Index != 1 {
+			return false
+		}
+		call, ok := ex.Tuple.(*ssa.Call)
+		return ok && split != nil && call.Call.StaticCallee() == split
+	}
+	isBytesEqual := func(a an.Atom) bool {
+		if cmpBS != nil && an.BoolCall(a, cmpBS, "", true) {
+			return true
+		}
+		call, ok := a.X.(*ssa.Call)
+		return ok && a.Op == token.ILLEGAL && a.Truth && call.Call.StaticCallee() != nil && an.CanonKeyOf(call.Call.StaticCallee()) == "bytes.Equal"
+	}
+	if m2b != nil && valid != nil {
 		m2bSites := lookupsOf(m2b)
 		successAlt = func(b *ssa.BasicBlock) bool {
+			gs := p.Guards(b)
+			if an.AnyAtom(gs, isValidated) && (an.AnyAtom(gs, isSplitOK) || hasRangeTest(m2b, 3, 12, 24)) {
+				return true // the two halves of IsMnemonicValid asked one after the other
+			}
 			return hasRangeTest(m2b, 3, 12, 24) && validatedBefore(m2b, m2bSites, b)
 		}
 		successGuard(m2b, "IsMnemonicValid", func(a an.Atom) bool { return an.BoolCall(a, valid, "", true) })
-		successGuard(m2b, "checksum comparison", func(a an.Atom) bool { return an.BoolCall(a, cmpBS, "", true) })
+		successGuard(m2b, "checksum comparison", isBytesEqual)
 	}
 	nsec := fn(c, pkgKeystore, "", "NewSeedWithErrorChecking")
 	mustPass(c, nsec, an.Set(m2b), "MnemonicToByteArray")
@@ -524,7 +578,7 @@ func runC13(c *report.Ctx) {
 			in := ls.in
 			key := siteKey(f, "word-lookup", k+1)
 			switch {
-			case valid != nil && an.AnyAtom(p.GuardsOf(in), func(a an.Atom) bool { return an.BoolCall(a, valid, "", true) }):
+			case valid != nil && an.AnyAtom(p.GuardsOf(in), func(a an.Atom) bool { return an.BoolCall(a, valid, "", true) || isValidated(a) }):
 				c.OK(key, "after IsMnemonicValid accepted every word", posOf(c, in))
 			case ls.tested:
 				c.OK(key, "found flag tested; a word outside the list reaches only rejection", posOf(c, in))
